@@ -20,6 +20,7 @@ import os
 import pickle
 import shutil
 import sys
+import time
 import types
 
 import numpy as np
@@ -250,6 +251,7 @@ class BatchSpec(Spec):
         self.family = family
         self.cfgkind = cfgkind
         self.callbacks = ("perm",) if family == "batch-distance" else ("reset",)
+        self.slow = name == "BWSTest"
 
     def cls(self):
         import frouros.detectors.data_drift.batch as b
@@ -278,16 +280,19 @@ class BatchSpec(Spec):
     def gen_ops(self, rng, cfg, n):
         dim = cfg.get("dim", 0)
         cat = self.name == "ChiSquareTest"
+        # SciPy's BWS test enumerates / resamples up to 9999 permutations per compare: small samples
+        # (5+6: exact enumeration; 9+9: random resampling from the global generator)
+        fit_sizes, cmp_sizes = ([6, 9], [5, 6, 9]) if self.slow else ([6, 15, 40], [5, 6, 15, 30])
         ops = []
         if rng.random() < 0.25:
-            ops.append(["compare", _data(rng, rng.choice([5, 12]), dim=dim, categorical=cat)])  # before any fit: MissingFitError
-        ops.append(["fit", _data(rng, rng.choice([6, 15, 40]), dim=dim, categorical=cat)])
+            ops.append(["compare", _data(rng, rng.choice(cmp_sizes), dim=dim, categorical=cat)])  # before any fit: MissingFitError
+        ops.append(["fit", _data(rng, rng.choice(fit_sizes), dim=dim, categorical=cat)])
         while len(ops) < n:
             r = rng.random()
             if r < 0.62:
-                ops.append(["compare", _data(rng, rng.choice([5, 6, 15, 30]), dim=dim, categorical=cat)])
+                ops.append(["compare", _data(rng, rng.choice(cmp_sizes), dim=dim, categorical=cat)])
             elif r < 0.8:
-                ops.append(["fit", _data(rng, rng.choice([6, 15, 40]), dim=dim, categorical=cat)])
+                ops.append(["fit", _data(rng, rng.choice(fit_sizes), dim=dim, categorical=cat)])
             elif r < 0.92:
                 ops.append(["reset"])
             else:
@@ -421,6 +426,12 @@ def tmp_path():
     return os.path.join(TMP, f"c15_{os.getpid()}_{_counter[0]}.pkl")
 
 
+def _msg(e):
+    import re
+
+    return re.sub(r" at 0x[0-9a-f]+", "", f"{type(e).__name__}: {e}")[:300]
+
+
 def _rm(path):
     try:
         os.remove(path)
@@ -485,7 +496,7 @@ def run_case(ck, case, rng=None, report=True):
                 except Exception as e:  # noqa: BLE001
                     left = os.path.exists(path)
                     _rm(path)
-                    bad("picklable", what="save raised on a detector / callback", k=k, protocol=p, error=f"{type(e).__name__}: {e}"[:300], file_left_behind=left)
+                    bad("picklable", what="save raised on a detector / callback", k=k, protocol=p, error=_msg(e), file_left_behind=left)
                     return found, ref, root0
                 d = snap_diff(s_orig, snap(root))
                 if d is not None:
@@ -496,7 +507,7 @@ def run_case(ck, case, rng=None, report=True):
                     loaded = load(path)
                 except Exception as e:  # noqa: BLE001
                     _rm(path)
-                    bad("load", what="load raised on a file written by save", k=k, protocol=p, error=f"{type(e).__name__}: {e}"[:300])
+                    bad("load", what="load raised on a file written by save", k=k, protocol=p, error=_msg(e))
                     return found, ref, root0
                 _rm(path)
                 if type(loaded) is not type(root):
@@ -760,6 +771,9 @@ def expected_history(ops, trace):
 
 
 def run(ck: Check):
+    import logging
+
+    logging.getLogger("frouros").setLevel(logging.CRITICAL)  # "Drift detected. Resetting detector..." / error lines of save()
     rng = ck.rng
     thorough = ck.tier == "thorough"
     shutil.rmtree(TMP, ignore_errors=True)
@@ -776,34 +790,36 @@ def run(ck: Check):
     rejection(ck, thorough)
 
     tie_cases, tie_impl, tie_hist = [], [], []
-    reps = 1 if not thorough else 6
     for spec in SPECS:
         variants = [(None, "detector")]
         for kind in spec.callbacks:
             variants.append((kind, "detector"))
             variants.append((kind, "callback"))
+        reps = (1 if spec.family == "concept" else 2) * (1 if not thorough else 6)
         for rep in range(reps):
             for vi, (cbkind, end) in enumerate(variants):
                 cfg = spec.gen_cfg(rng)
                 cb = gen_callback(rng, cbkind) if cbkind else None
                 if spec.family == "concept":
                     lens = [rng.choice([6, 12]), 25] if cbkind is None else [rng.choice([5, 12, 20])]
-                    if cbkind is None and (thorough or rep == 0):
+                    if cbkind is None:
                         lens.append(rng.choice([60, 150]) if spec.name not in ("BOCD",) else 60)
                 elif spec.family == "stream-dd":
-                    lens = [rng.choice([6, 12]), 25]
-                elif cbkind == "perm":
-                    lens = [2 if not thorough else 3]  # every compare spawns a process pool
+                    lens = [rng.choice([6, 12]), 25, 45]
+                elif cbkind == "perm" or getattr(spec, "slow", False):
+                    lens = [3]  # every compare spawns a process pool / runs thousands of permutations
                 else:
-                    lens = [rng.choice([3, 5]), 8] if cbkind is None else [rng.choice([3, 6])]
+                    lens = [rng.choice([3, 5]), 8, 12] if cbkind is None else [rng.choice([3, 6]), 8]
                 for n in lens:
                     ops = spec.gen_ops(rng, cfg, n)
                     ks = save_points(rng, spec, cfg, ops)
                     case = dict(cls=spec.name, config=cfg, callback=cb, end=end, ops=ops, env_seed=rng.randrange(2**31), ks=ks)
                     case["cont"] = cont_plan(rng, ks, len(ops))
-                    if cbkind == "perm":
+                    if cbkind == "perm" or getattr(spec, "slow", False):
                         case["cont"] = {k: [rng.choice(PROTOS)] for k in ks}
+                    t0 = time.time()
                     found, ref, root0 = run_case(ck, case)
+                    ck.count(f"seconds:{spec.family}" + (":perm" if cbkind == "perm" else ""), round(time.time() - t0, 3))
                     raised = sum(1 for o in ref if o[0][:1] == ("raise",))
                     if spec.family == "concept":
                         flags = {(o[1][1][0][1], o[1][1][1][1]) for o in ref if len(o) > 1}
@@ -815,7 +831,7 @@ def run(ck: Check):
                     ck.count(f"callback:{cbkind}:{end}")
                     ck.count("history_ops", len(ops))
                     # callables never appear / disappear along a history (model table is per class)
-                    if model_table is not None and not found:
+                    if model_table is not None:
                         fields = sorted({(p, k) for p, k, _ in callable_fields(root0 if end == "detector" else root0.detector)})
                         exp = list(model_table[spec.name][0])
                         if cb is not None:
@@ -823,7 +839,7 @@ def run(ck: Check):
                         if fields != exp:
                             ck.mismatch("callable attributes after a history vs model table", dict(cls=spec.name, impl=fields, model=exp, case=case))
                     # model tie on the no-save run of the 13 detectors (the model says: = resumed = original)
-                    if spec.family == "concept" and len(ops) <= 25 and end == "detector" and cbkind in (None, "history") and not found and (thorough or vi <= 1) and len([c for c in tie_cases if c[0] is spec.det]) < (2 if not thorough else 6):
+                    if spec.family == "concept" and len(ops) <= 25 and end == "detector" and cbkind in (None, "history") and (thorough or vi <= 1) and len([c for c in tie_cases if c[0] is spec.det]) < (2 if not thorough else 6):
                         np.random.seed(case["env_seed"])
                         cbs = make_callbacks(cb)
                         out, exc, extra = run_impl(spec.det, cfg, ops, callbacks=cbs or None)
